@@ -46,11 +46,13 @@ def run(tier, seed):
         n = len(h.HIER[hh])
         for via in range(3):
             for form in range(4):
-                if tier == 'quick' and form in (1, 3) and hh != 1:
+                if tier == 'quick' and form in (1, 3) and hh not in (0, 1):
                     continue
                 pre = 'h == %d and via == %d and form == %d' % (hh, via, form)
                 if tier == 'quick':
-                    pre += ' and extra == 10'
+                    # a second member in the root class only where it can matter for a shared class object: a class
+                    # variable and a self-assignment of one name in a root class that lives in lib.py
+                    pre += ' and (extra == 10 or (extra == 4 and m0 == 2))' if form != 0 else ' and extra == 10'
                     for i in range(n):
                         pre += ' and ' + QUICK % ((i,) * 7)
                     if n == 4:
